@@ -2,7 +2,7 @@
    [Mpsmodel.run], print the resulting sexp on one line.  Parsing/printing only.
    Syntax:  atom = [-]decimal | [-]0xhex ;  bytes = #hex (possibly empty) ;  list = ( ... )   *)
 type sx = Mpsmodel.sx = At of Z.t | Bs of Z.t list | Li of sx list
-let run = Mpsmodel.run
+let run = Mpsmodel.mps_dispatch
 
 exception Parse of string
 
